@@ -21,6 +21,14 @@ vlib/ref_hci.py, an independent encoder/decoder for the declared field layouts):
                parameters parses into the command's return-parameter class with equal
                fields; non-zero status gives a status-only object; built events match
                the reference bytes
+  rp-spec  (H) per sync command: the class registered for its Command Complete return
+               parameters is the class the command itself declares
+               (HCI_SyncCommand[...]); return parameters shaped as the Core specification
+               says (vlib/ref_hci_rp.py: a table of layouts per op code written from the
+               specification, not from bumble) parse into that class with one attribute per
+               spec parameter holding the octets at the spec offset, re-serialise
+               unchanged, and the object built from those attributes serialises to the
+               same spec-length octets
   data     (G) ACL / SCO / ISO headers: all flag combinations x boundary handles x
                boundary lengths, ISO with/without time stamp and SDU header,
                packet status 0..3, both directions
@@ -44,7 +52,9 @@ RULE = ('registries are enumerated at run time (commands incl. vendor, events, L
         'count once); distinct = distinct (class, direction, shape) where shape is the tuple of '
         'boundary classes of the integer fields, lengths of the variable fields and group counts. '
         'Generic/unknown-code, Command Complete and data-packet cases: distinct = distinct '
-        '(kind, code or flag combination, length).')
+        '(kind, code or flag combination, length). Clause H: every sync command found at run time x N '
+        'spec-shaped return-parameter blocks (status 0, random octets in every spec field, array counts '
+        '0/1/2/3/as-many-as-fit); distinct = (command, array counts / rest length).')
 ASSUMPTIONS = [
     'the declared field metadata (spec, list_begin/list_end, parser names, the size/byteorder captured by '
     'SpecableEnum/SpecableFlag.type_spec) is taken as the intended layout; a class whose declaration is '
@@ -57,6 +67,10 @@ ASSUMPTIONS = [
     'Android factory claims); HCI_Vendor_Event data never starts with a claimed vendor sub-event code; '
     'HCI_Command_Complete_Event as a plain event class is generated with unregistered op codes only '
     '(registered ones are covered by clause F)',
+    'return-parameter layouts per op code (clause H) are the ones written down in vlib/ref_hci_rp.py from Core '
+    'Vol 4 Part E 7.x, the Android HCI requirements and Zephyr hci_vs.h: widths and order only (signedness and '
+    'value ranges are not judged); a sync command found at run time without an entry in that table is listed in '
+    'coverage.return_parameter_spec_layout_missing and only gets the declared-vs-registered class comparison',
     'parameter blocks are kept <= 255 octets; ISO layout per Core Vol 4 Part E 5.4.5 '
     '(ISO_SDU_Length bits 0-11, Packet_Status_Flag bits 14-15)',
 ]
@@ -65,12 +79,16 @@ MIN_EVENTS = {
               'rebuilds': 40000, 'generic_checks': 3000, 'cmdcomplete_checks': 3000,
               'data_checks': 3000, 'classes_populated': 270, 'pad_roundtrips': 2000,
               'iso_status_checks': 100, 'synthetic_all_paths_roundtrips': 1000,
-              'cmdcomplete_error_status_checks': 2000, 'sweep_instances': 4000},
+              'cmdcomplete_error_status_checks': 2000, 'sweep_instances': 4000,
+              'rp_declared_class_checks': 2000, 'rp_spec_layout_checks': 5000, 'rp_spec_rebuilds': 4500,
+              'rp_spec_field_checks': 4500},
     'thorough': {'build_roundtrips': 2500000, 'frombytes_roundtrips': 2500000, 'layout_checks': 2500000,
                  'rebuilds': 5000000, 'generic_checks': 30000, 'cmdcomplete_checks': 30000,
                  'data_checks': 30000, 'classes_populated': 270, 'pad_roundtrips': 60000,
                  'iso_status_checks': 1000, 'synthetic_all_paths_roundtrips': 20000,
-                 'cmdcomplete_error_status_checks': 20000, 'sweep_instances': 65536},
+                 'cmdcomplete_error_status_checks': 20000, 'sweep_instances': 65536,
+                 'rp_declared_class_checks': 10000, 'rp_spec_layout_checks': 100000, 'rp_spec_rebuilds': 90000,
+                 'rp_spec_field_checks': 90000},
 }
 CASE_TIMEOUT = 900
 EXHAUSTIVE_NOTE = ('enumerated completely in every run: all registered classes of every registry; all unregistered '
@@ -828,6 +846,8 @@ def census_case(case, r: R):
             r.add_extra_list('return_parameter_classes_unpopulated', f'{e.name}: {ex}')
     r.extra['field_paths_return_parameters'] = [f'{k}={v}' for k, v in sorted(rp.items())]
     r.extra.setdefault('return_parameter_classes_unpopulated', [])
+    r.extra.setdefault('return_parameter_spec_layout_missing', [])
+    r.extra.setdefault('return_parameter_classes_undeclared', [])
     r.extra.setdefault('classes_unpopulated', [])
     r.evals()
     r.sample = {'kind': 'census', 'registries': kinds, 'field_paths': tags}
@@ -1499,10 +1519,12 @@ LEVEL_TEXT = ('Every class found at run time in the command (incl. vendor), even
               'unregistered event and LE sub-event codes, a sample of unregistered op codes, unclaimed vendor '
               'events and unknown packet types are checked to come back generic and byte-identical; every sync '
               'command gets Command Complete events with generated return parameters (success, error status '
-              'only, error status full length); ACL/SCO/ISO headers are enumerated over all flag combinations '
+              'only, error status full length), and return parameters laid out as the specification says (a '
+              'per-op-code table independent of bumble) which must come back as the class the command declares, '
+              'field by field, and rebuild to the same octets; ACL/SCO/ISO headers are enumerated over all flag combinations '
               'x boundary handles x boundary lengths. Classes the generator cannot populate are listed in '
               'coverage.classes_unpopulated. Held = no refuting instance among those generated; sampling, not proof.')
-LEVEL_NOTE = ('Trusted: vlib/ref_hci.py (the meaning of the field-spec language and the Core-spec header '
+LEVEL_NOTE = ('Trusted: vlib/ref_hci_rp.py (return-parameter widths per op code, from the specification); vlib/ref_hci.py (the meaning of the field-spec language and the Core-spec header '
               'layouts, ~450 lines, self-checked encoder<->decoder on every instance), the declared field '
               'metadata of each class as the statement of its intended layout, CPython dataclasses. A class '
               'whose declaration is wrong but self-consistent is outside this check.')
